@@ -26,7 +26,7 @@ CONFIGS = [
     ("--solver", "z3", "--storage-layout", "generic"),
 ]
 
-BUDGET = {"quick": 9, "thorough": 250}
+BUDGET = {"quick": 8, "thorough": 120}
 
 
 def codes_of(cli: tuple) -> set[int] | None:
@@ -66,12 +66,19 @@ def explore(chk: Check, tier: str, want: str):
             if out.exception:
                 raise MachineryError(f"run_contract raised {out.exception}")
             runs.append((contract, metas, cli, out))
+        # division / remainder with a symbolic divisor around the zero divisor (refinement of the abstractions)
+        for cli in ((), ("--solver", "z3")) if tier == "quick" else CONFIGS:
+            contract, metas = testgen.gen_divzero_contract(rnd)
+            out = run_contract(contract, cli=cli)
+            if out.exception:
+                raise MachineryError(f"run_contract raised {out.exception}")
+            runs.append((contract, metas, cli, out))
         # brute force on the reference machine
         cases, index = [], {}
         cid = 0
         for ri, (contract, metas, cli, out) in enumerate(runs):
             for meta in metas:
-                for tup in testgen.arg_tuples(meta, rnd, cap=60 if tier == "quick" else 120):
+                for tup in testgen.arg_tuples(meta, rnd, cap=(30 if meta.sig.startswith(("check_div", "check_sdiv", "check_mod", "check_smod")) else 45) if tier == "quick" else 100):
                     cases.append(reftest.test_case(cid, contract, meta.sig, reftest.encode_static(meta.sig, tup)))
                     index[cid] = (ri, meta.sig, tup, "grid")
                     cid += 1
